@@ -200,6 +200,27 @@ def chain(n):
     return canon([(i, i + 1) for i in range(n - 1)])
 
 
+def rail_caterpillar(levels, feet=True):
+    """a spine b_0 -> b_1 -> ... with a source t_i -> b_i at every level (two or three nodes per layer, `levels` + 1 layers):
+    a chain of as many blocks as there are levels, whose neighbour relations hop from layer to layer"""
+    b = lambda i: 2 * i
+    t = lambda i: 2 * i + 1
+    es = []
+    for i in range(levels):
+        es.append((t(i), b(i)))
+        if i > 0:
+            es.append((b(i - 1), b(i)))
+    if feet:
+        g = 2 * levels
+        es += [(b(0), g), (t(0), g)]
+    return canon(es)
+
+
+def chord_chain(L, chords):
+    """a chain of L nodes plus chords (u, v): an edge spanning |v - u| layers (a back edge if v < u) - routes with many bends"""
+    return canon([(i, i + 1) for i in range(L - 1)] + list(chords))
+
+
 def ladder(layers, width=2, twist=True):
     """layers x width grid DAG with twisted rungs: forces crossings and many layers"""
     def node(l, k):
